@@ -440,7 +440,7 @@ func proxyScenario(x *explore.X) {
 func TestC08(t *testing.T) {
 	s := explore.NewSuite(t, "C08", "model_checking",
 		"(parser) every header of a 70+ case alphabet (v1 TCP4/TCP6 with minimal..maximal addresses and ports, UNKNOWN bare and 107-byte, over-long lines, bad ports/addresses/signature; v2 every command nibble class x family/protocol byte x lengths 0 / exact / +TLV / 2048 / 2049, wrong version, wrong signature, non-header prefixes) x payload(4) x EVERY segmentation into 2 (quick) / 3 (thorough) segments at all cut positions plus byte-wise delivery, through the real proxyproto.Listener (with connfu) on the simulated network; (stall) every header x EVERY stall offset inside the header with the virtual clock moved to timeout-1ms / +1ms; (proxy) every header through the complete proxy with a PROXY-protocol listener: X-Forwarded-For at the origin, then a well-formed probe client; an independent grammar of the PROXY protocol specification classifies each header as valid / invalid / receiver's choice and gives the addresses; states = quiescent states after each delivered segment")
-	s.Assume = []string{"the reference grammar follows haproxy's proxy-protocol.txt; where the specification leaves the choice to the receiver both outcomes are allowed but an accepted connection must report the socket's own addresses", "concurrent callers of Read/Write/RemoteAddr are covered by the preemption-bounded scenario when present"}
+	s.Assume = []string{"the reference grammar follows haproxy's proxy-protocol.txt; where the specification leaves the choice to the receiver both outcomes are allowed but an accepted connection must report the socket's own addresses", "(concurrent-callers) sync.Mutex/atomic.Bool and the go statement of proxyproto/net.go are redirected at build time to a cooperative scheduler: all interleavings of 2-3 callers of Read/Write/RemoteAddr/LocalAddr on one connection with at most 2 preemptions (2 callers quick, 2-3 callers thorough); unsynchronised accesses are outside this technique (race detector territory)"}
 	run := func(f func(x *explore.X)) func(x *explore.X) {
 		return func(x *explore.X) { world.Run(t, x, func() { f(x) }) }
 	}
@@ -448,5 +448,9 @@ func TestC08(t *testing.T) {
 	s.Add(explore.Scenario{Name: "parser-thorough", Remote: true, Tiers: []string{"thorough"}, MaxDev: map[string]int{"thorough": 2}, Run: run(func(x *explore.X) { parserScenario(x, 2, false) })})
 	s.Add(explore.Scenario{Name: "stall", Remote: true, MaxDev: map[string]int{"quick": 0, "thorough": 0}, Run: run(func(x *explore.X) { parserScenario(x, 0, true) })})
 	s.Add(explore.Scenario{Name: "through-proxy", Remote: true, Run: run(proxyScenario)})
+	s.Add(explore.Scenario{Name: "concurrent-callers-quick", Remote: true, Tiers: []string{"quick"}, MaxDev: map[string]int{"quick": 2},
+		Run: func(x *explore.X) { concurrentScenario(t, x, 2) }})
+	s.Add(explore.Scenario{Name: "concurrent-callers-thorough", Remote: true, Tiers: []string{"thorough"}, MaxDev: map[string]int{"thorough": 2},
+		Run: func(x *explore.X) { concurrentScenario(t, x, 3) }})
 	s.Main()
 }
